@@ -1,9 +1,10 @@
 import SnootyVerif.Drv.C09
+import SnootyVerif.Drv.C06
 open Lean SnootyVerif.Drv
 
 /-- every `Drv/Cxx.lean` exports `ops`; add the import above and one line here. -/
 def allOps : List (String × (Json → Except String Json)) :=
-  C09.ops
+  C09.ops ++ C06.ops
 
 def dispatch (op : String) (j : Json) : Except String Json :=
   match allOps.lookup op with
